@@ -13,6 +13,7 @@ from fractions import Fraction
 from mc import alpha
 from mc import exactgeom as G
 from mc.env import guard
+from mc import pasts
 from tracklib.core.obs import Obs
 from tracklib.core.obs_coords import ENUCoords
 from tracklib.core.track import Track
@@ -36,6 +37,7 @@ ASSUMPTIONS = ["ENU tracks, z = 0, strictly increasing unique timestamps 3 s apa
 N_VARIANTS = 4
 
 OBLIGATIONS = {
+    "track_with_a_past": "the track had been copied, extracted, rebuilt from featured observations or concatenated from two legs (one of them featured) first",
     "edge_of_a_network": "the track was simplified as the geometry of a network edge (Network.simplify), after a longer edge",
     "far_from_the_origin": "a track at projected-metre magnitudes (x 6.5e5, y 6.9e6) with decimetre detail was simplified",
     "numpy_scalar_coordinates": "a track whose coordinates are numpy.float64 scalars was simplified",
@@ -77,6 +79,8 @@ def _fields(t):
     return (t.year, t.month, t.day, t.hour, t.min, t.sec, t.ms)
 
 
+PASTS = ["copied", "extracted", "span", "featured-then-removed", "rebuilt-from-featured-observations",
+         "sum-of-halves-first-half-featured", "sum-of-halves-both-featured"]
 FAR = (652000.0, 6862000.0, 0.125)     # projected-metre magnitudes, decimetre detail (exact in binary64, not in binary32)
 
 
@@ -130,7 +134,7 @@ def check_simplify(variant, ptsl, tol_l, algo, ctx, rep=None, ctype="float", fra
         ctx.oblige("far_from_the_origin")
     if via != "function":
         case["via"] = via
-        ctx.oblige("edge_of_a_network")
+        ctx.oblige("edge_of_a_network" if via == "network" else "track_with_a_past")
     if rep is None:
         rep = len(set(ptsl)) < len(ptsl)
     ctx.case(rep)
@@ -138,6 +142,11 @@ def check_simplify(variant, ptsl, tol_l, algo, ctx, rep=None, ctype="float", fra
     tol = tol_l * (FAR[2] if frame == "far" else alpha.scale(variant))
     pts = [_pt(variant, p, frame) for p in ptsl]
     track = _mk_track(variant, ptsl, ctype, frame)
+    if via.startswith("past:"):
+        st_, track = guard(pasts.make, lambda: _mk_track(variant, ptsl, ctype, frame), via[5:])
+        if st_ != "ok" or track.size() != n:
+            ctx.undef()
+            return
     stamp = {_fields(track[k].timestamp): k for k in range(n)}
 
     if algo == "douglas_peucker" and n >= 3 and ptsl[0] != ptsl[-1]:
@@ -329,6 +338,8 @@ def run_shard(shard, ctx):
                         check_simplify(v, ptsl, tol, algo, ctx, rep, frame="far")
                     if n <= 3:                    # ... and as the geometry of a network edge, through Network.simplify
                         check_simplify(v, ptsl, tol, algo, ctx, rep, via="network")
+                        for past in PASTS:        # ... and after a past in another part of the library (mc/pasts.py)
+                            check_simplify(v, ptsl, tol, algo, ctx, rep, via="past:" + past)
             done += 1
             if done == 7:
                 ctx.sample({"track": [list(p) for p in ptsl], "tolerances_lattice_units": tols, "algorithms": algos, "variant": v})
